@@ -657,6 +657,9 @@ func (c *stubConnector) ConsumeProfiles(ctx context.Context, pf pprofile.Profile
 	return c.do(ctx, pf)
 }
 
+// rndMatrix is the support matrix of connector type "rnd" in the current run.
+var rndMatrix [4][4]bool
+
 // connSupports says which (from,to) pairs a connector type implements.
 func connSupports(typ, from, to string) bool {
 	switch typ {
@@ -669,6 +672,10 @@ func connSupports(typ, from, to string) bool {
 		return true
 	case "l2m":
 		return from == sigLogs && to == sigMetrics
+	case "rnd":
+		// a support matrix drawn per run (set by genTopo before any factory is built)
+		idx := map[string]int{sigLogs: 0, sigTraces: 1, sigMetrics: 2, sigProfiles: 3}
+		return rndMatrix[idx[from]][idx[to]]
 	case "asym":
 		// an asymmetric matrix over several pairs: only "upwards" in the order logs < traces < metrics < profiles,
 		// plus logs -> logs
@@ -775,6 +782,7 @@ func (w *World) connectorFactories() map[component.Type]connector.Factory {
 		component.MustNewType("conv"):    mk("conv"),
 		component.MustNewType("l2m"):     mk("l2m"),
 		component.MustNewType("asym"):    mk("asym"),
+		component.MustNewType("rnd"):     mk("rnd"),
 	}
 }
 
